@@ -45,9 +45,22 @@ def gltf_dag(depth, fan, glb=True):
     total = 12 + 8 + len(js) + 8 + len(blob)
     return b"glTF" + struct.pack("<II", 2, total) + struct.pack("<I", len(js)) + b"JSON" + js + struct.pack("<I", len(blob)) + b"BIN\x00" + blob
 
-def gltf_cycle(n, glb=True):
+def gltf_cycle(n, glb=True, camera=None):
+    """n nodes in a ring (n = 1: a node that lists itself as its child); with `camera`, every node of the ring carries a camera of
+    that kind (usable or not: a loader that skips unusable cameras must still mark the node as visited)."""
     d = json.loads(gltf_dag(2, 1, glb=False))
-    d["nodes"] = [{"mesh": 0, "children": [1]}] + [{"children": [(k + 1) % n]} for k in range(1, n)]
+    if n <= 1:
+        d["nodes"] = [{"mesh": 0, "children": [0]}]
+    else:
+        d["nodes"] = [{"mesh": 0, "children": [1]}] + [{"children": [(k + 1) % n]} for k in range(1, n)]
+    if camera is not None:
+        cam = {"orthographic": {"type": "orthographic", "orthographic": {"xmag": 1.0, "ymag": 1.0, "zfar": 10.0, "znear": 0.1}},
+               "no_znear": {"type": "perspective", "perspective": {"yfov": 0.7, "aspectRatio": 1.3}},
+               "no_aspect": {"type": "perspective", "perspective": {"yfov": 0.7, "znear": 0.1}},
+               "valid": {"type": "perspective", "perspective": {"yfov": 0.7, "znear": 0.1, "aspectRatio": 1.3}}}[camera]
+        d["cameras"] = [cam]
+        for node in d["nodes"]:
+            node["camera"] = 0
     d["scenes"] = [{"nodes": [0]}]
     return json.dumps(d).encode()
 
@@ -76,8 +89,8 @@ def svg_nested(depth):
 
 FAMILIES = {
     "dxf": ["dxf_nested"],
-    "glb": ["gltf_dag", "gltf_cycle_glb", "glb_image_bomb"],
-    "gltf": ["gltf_dag", "gltf_cycle"],
+    "glb": ["gltf_dag", "gltf_cycle_glb", "glb_image_bomb", "gltf_cycle_camera_glb"],
+    "gltf": ["gltf_dag", "gltf_cycle", "gltf_cycle_camera"],
     "3mf": ["3mf_chain"],
     "obj": ["obj_same_names"],
     "obj_mtl": ["obj_same_names"],
@@ -98,8 +111,10 @@ def build(sub, a, b, fmt):
         return gltf_dag(4 + a % 20, 2 + b % 2, glb=(fmt == "glb"))
     if sub == "gltf_cycle":
         return gltf_cycle(2 + a % 6)
-    if sub == "gltf_cycle_glb":
-        doc = gltf_cycle(2 + a % 6)
+    if sub == "gltf_cycle_camera":
+        return gltf_cycle(1 + a % 4, camera=["orthographic", "no_znear", "no_aspect", "valid"][b % 4])
+    if sub in ("gltf_cycle_glb", "gltf_cycle_camera_glb"):
+        doc = gltf_cycle(2 + a % 6) if sub == "gltf_cycle_glb" else gltf_cycle(1 + a % 4, camera=["orthographic", "no_znear", "no_aspect", "valid"][b % 4])
         ref = gltf_dag(2, 1, glb=True)
         jl = int.from_bytes(ref[12:16], "little")
         rest = ref[20 + jl:]
